@@ -379,6 +379,34 @@ func total08Workload(args []string) int {
 			t := &t08{w: w, world: world, rng: rng, surf: world.R.Surface(), pool: pool, idx: map[string]uint64{}, kinds: map[string]int{}}
 			nBlocks := 10
 			shape := map[string]bool{}
+			if id%10 == 7 {
+				// an XVM contract (the project's own ledger test contract) stores values of growing size - up to more
+				// than a fresh instance's free heap - and reads them back in later transactions
+				if code, err := os.ReadFile("/repo/pkg/vm/wasm/testdata/ledger_test_gc.wasm"); err == nil {
+					k := harness.User(1)
+					res, err := world.Exec(harness.XVMDeployTx(k, world.Nonce(k.Addr), world.Stamp(), code))
+					if err == nil && res.Receipts[0].Status == pb.Receipt_SUCCESS {
+						addr := types.NewAddress(res.Receipts[0].Ret)
+						for i, size := range []int{3, 70000, 300 * 1024} {
+							key := fmt.Sprintf("big-%d", i)
+							val := bytes.Repeat([]byte{byte('a' + i)}, size)
+							w.Step(fmt.Sprintf("XVM contract stores %d bytes, then reads them back", size))
+							if _, err := world.Exec(harness.XVMInvokeTx(k, world.Nonce(k.Addr), world.Stamp(), addr, "state_test_set", pb.Bytes([]byte(key)), pb.Bytes(val))); err != nil {
+								break
+							}
+							res, err := world.Exec(harness.XVMInvokeTx(k, world.Nonce(k.Addr), world.Stamp(), addr, "state_test_get", pb.Bytes([]byte(key))))
+							if err != nil {
+								break
+							}
+							w.Count("xvm_large_state_reads", 1)
+							if res.Receipts[0].Status == pb.Receipt_SUCCESS && !bytes.Equal(res.Receipts[0].Ret, val) {
+								w.Count("obs_xvm_read_differs_from_write", 1)
+							}
+						}
+						shape["xvm:large-state"] = true
+					}
+				}
+			}
 			for b := 0; b < nBlocks; b++ {
 				n := 1 + rng.Intn(20)
 				var txs []pb.Transaction
